@@ -114,6 +114,23 @@ def run(F, ck, tier):
                               ctx={'uncond': True}, why='inner proof\'s embedded %s connected to this circuit\'s own' % f))
         E.check('R20.3', dict(id='cyclic.register:' + f, fn='CircuitBuilder::add_verifier_data_public_inputs', crate='plonky2', kind='call', callee='register_public_inputs',
                               src=['F:VerifierCircuitTarget.' + f, 'c:add_virtual_verifier_data'], why='%s registered as public input' % f))
+    # ... and unconditionally in the data-flow sense too: the partner of the embedded verifier data is the circuit's own data itself,
+    # not a selection that falls back to the embedded data when the condition is off (which would make the equation x == x)
+    cy = F.one('CircuitBuilder::conditionally_verify_cyclic_proof', crate='plonky2')
+    if cy is not None:
+        flc = flow.Flow(F, cy)
+        nconn = 0
+        for e in flc.events:
+            if e.kind == 'call' and e.name in ('connect_hashes', 'connect_merkle_caps', 'connect_verifier_data'):
+                nconn += 1
+                d = set()
+                for a in e.args:
+                    d |= set(flow.flat(a))
+                sel = sorted(x for x in d if x == 'p:condition' or (x.startswith('c:') and 'select' in x.split('::')[-1]))
+                ck.ob('R20.3', 'cyclic.connect-direct:%s#%d' % (e.name, nconn), not sel, 'the equality does not depend on the recursion condition' if not sel else
+                      'CONDITIONAL KEY BINDING: in conditionally_verify_cyclic_proof the %s that ties the inner proof\'s embedded verifier data to this circuit\'s own depends on %s: '
+                      'when the condition is off the embedded data is compared with itself, so a chain can be started from a proof of any circuit and continued under this circuit\'s key' % (e.name, ', '.join(sel)), e.loc())
+        ck.floor('R20.3', 'verifier-data equalities in conditionally_verify_cyclic_proof', nconn, 2)
     vofields = F.adt_fields('VerifierOnlyCircuitData', crate='plonky2') or []
     for f, t in vofields:
         E.check('R20.3', dict(id='cyclic.check:' + f, fn='recursion::cyclic_recursion::check_cyclic_proof_verifier_data', kind='guard',
